@@ -17,7 +17,7 @@ pub fn meta() -> Meta {
     Meta {
         id: "C20",
         level: "exploration",
-        rule: "(1) counting and table: read pairs with an exactly designed multiplicity histogram (for each designed (count c, n k-mers) a unique segment of n+k-1 letters is read c times, copies alternating between the two files and the two orientations) — every design from a family that puts 49/50/51 k-mers on the last bucket, leaves empty buckets inside, reaches counts 1..12, long tables (a segment seen 250 / 600 / exactly 1000 times, and segments seen 1001 and 1200 times, which the table must not list), and one made of reads of exactly k letters, of k+1 letters and of reads too short to hold a k-mer — plus tilings of a genome with substitution errors and N runs; FASTQ files with an odd number of reads are written with CRLF line ends; k in {7,31,33} (thorough: + 15, 21, 63) x both strand modes; the real CoverageHistogram::new + fit_histogram (hook: truncated counts, per-k-mer multiplicities) and the `ska cov` CLI table are compared with the model's multiplicity of every distinct split k-mer. (2) cutoff rule: hooked find_cutoff on the grid w0 in {0.01,0.05..0.95,0.99} x c in {1,1.5,2,3,5,10,20,40,80} x every table length 1..100 (thorough 1..400) against an independent closed form; end to end the printed cutoff equals that function of the fitted parameters and 'Error' labels exactly the counts below it. (3) likelihood/gradient identity on the basis: every unit histogram e_i (i=1..120 plus 150,172,200,244,300,400,600,999; thorough 1..400 plus those) x 19 w0 (thorough 99) x 12 c (thorough 71): hooked log_likelihood equals the two-Poisson mixture computed independently, hooked grad_ll equals its closed-form derivative (1e-9 relative) and the central difference of the real log_likelihood (1e-5); linearity is checked on composite histograms. Non-trivial = every grid point / designed read set.".into(),
+        rule: "(1) counting and table: read pairs with an exactly designed multiplicity histogram (for each designed (count c, n k-mers) a unique segment of n+k-1 letters is read c times, copies alternating between the two files and the two orientations) — every design from a family that puts 49/50/51 k-mers on the last bucket, leaves empty buckets inside, reaches counts 1..12, long tables (a segment seen 250 / 600 / exactly 1000 times, and segments seen 1001 and 1200 times, which the table must not list), and one made of reads of exactly k letters, of k+1 letters and of reads too short to hold a k-mer — plus tilings of a genome with substitution errors and N runs; FASTQ files with an odd number of reads are written with CRLF line ends; k in {7,31,33} (thorough: + 15, 21, 63) x both strand modes; the real CoverageHistogram::new + fit_histogram (hook: truncated counts, per-k-mer multiplicities) and the `ska cov` CLI table are compared with the model's multiplicity of every distinct split k-mer. (2) cutoff rule: hooked find_cutoff on the grid w0 in {0.01,0.05..0.95,0.99} x c in {1,1.5,2,3,5,10,20,40,80} x every table length 1..100 (thorough 1..400) against an independent closed form; end to end the printed cutoff equals that function of the fitted parameters and 'Error' labels exactly the counts below it. (3) likelihood/gradient identity on the basis: every unit histogram e_i (i=1..120 plus 150,172,200,244,300,400,600,999; thorough 1..400 plus those) x 19 w0 (thorough 99) plus 20 weights within 5e-3 of 0 or 1 (1e-8 .. 5e-3 and their mirrors) x 12 c (thorough 71): hooked log_likelihood equals the two-Poisson mixture computed independently, hooked grad_ll equals its closed-form derivative (1e-9 relative) and the central difference of the real log_likelihood (1e-5); linearity is checked on composite histograms. Non-trivial = every grid point / designed read set.".into(),
         assumptions: vec![
             "likelihood and gradient are linear in the histogram, so the unit histograms form a basis (checked on composites)".into(),
             "grid points within 1e-9 of a tie of the two components accept either neighbouring cutoff".into(),
@@ -249,7 +249,12 @@ pub fn run(ctx: &Ctx, rep: &mut Report) {
     let thorough = ctx.tier.thorough();
     let mut idx = 0u64;
     // ---------- (3) likelihood and gradient on the basis
-    let w0s: Vec<f64> = if thorough { (1..=99).map(|i| i as f64 * 0.01).collect() } else { (1..=19).map(|i| i as f64 * 0.05).collect() };
+    let mut w0s: Vec<f64> = if thorough { (1..=99).map(|i| i as f64 * 0.01).collect() } else { (1..=19).map(|i| i as f64 * 0.05).collect() };
+    // error weights close to the ends of (0,1): clean reads of a large genome fit w0 ~ 1e-4, very noisy ones w0 -> 1
+    for e in [1e-8, 1e-6, 1e-5, 1e-4, 2e-4, 5e-4, 9.99e-4, 1e-3, 2e-3, 5e-3] {
+        w0s.push(e);
+        w0s.push(1.0 - e);
+    }
     let mut cs: Vec<f64> = vec![1.0, 1.25, 1.5, 2.0, 3.0, 5.0, 8.0, 13.0, 20.0, 40.0, 80.0, 150.0];
     if thorough {
         cs.extend((2..=60).map(|i| i as f64 * 1.7));
@@ -279,9 +284,10 @@ pub fn run(ctx: &Ctx, rep: &mut Report) {
                     bad = Some(format!("log-likelihood {ll} but the two-Poisson mixture gives {want_ll}"));
                 } else if !rel_close(g[0], dw, 1e-9) || !rel_close(g[1], dc, 1e-9) {
                     bad = Some(format!("gradient ({}, {}) but the derivative of the mixture is ({dw}, {dc})", g[0], g[1]));
-                } else {
-                    // central differences of the real log_likelihood
-                    let hw = 1e-6;
+                } else if (0.005..=0.995).contains(w0) {
+                    // central differences of the real log_likelihood (not at the extreme weights: the differences
+                    // cancel there; the closed form above is the oracle)
+                    let hw = 1e-6f64;
                     let hc = 1e-6 * c.max(1.0);
                     let nw = (hooks::log_likelihood(&[w0 + hw, *c], &unit) - hooks::log_likelihood(&[w0 - hw, *c], &unit)) / (2.0 * hw);
                     if !rel_close(g[0], nw, 1e-5) {
